@@ -3,19 +3,67 @@ import vf
 
 META = {
     "claimed": True,
-    "text": "",
-    "note": "",
-    "technique": "Coq proof (loop invariants over the running top-K list, induction over chunks / chains) + model/implementation correspondence on f32 bit patterns",
+    "text": ("Coq theorems over a Gallina model of rten-generate/src/filter.rs (TopK/SimdTopK, TopP, Temperature, "
+             "token_id_filter, Sort, Chain incl. nested chains) on f32 BIT PATTERNS (total_cmp as Rust's integer key, "
+             "IEEE < with NaN incomparable and -0 == +0), for all logit vectors, all K, all P, every SIMD width >= 1, "
+             "every f32 addition and every softmax function: top-K never panics and returns min(K,n) entries, sorted "
+             "descending by the total order, that are a sub-multiset of the input such that no dropped entry exceeds a "
+             "kept one; SIMD chunk+tail = scalar loop; top-P returns the input for p == 1.0 and otherwise a descending "
+             "top-prefix of the (softmax-normalised or raw) candidates such that no strictly shorter prefix reaches "
+             "max(p, MIN_POSITIVE) and the prefix itself does unless it is everything, and is non-empty for non-empty "
+             "input (partial sums = the code's own f32 sums); a Chain is the panic-propagating composition of its "
+             "filters, nesting flattens; no filter panics. The theorems are about the code AFTER three fix commits "
+             "(F6: K > n panicked; F6b: later entries were admitted with the partial order `>`; F7: TopP::new set "
+             "normalize=false against its documentation); `_refuted` witness lemmas show the code as found violates "
+             "the property. Model and code are tied by running both on the same inputs on every run (lengths 0..40, "
+             "NaNs of both signs/payloads, +-inf, +-0, subnormals, ties, K in 0..n+3 and usize::MAX, P in {0, tiny, "
+             ".5, 1-eps, 1, >1, inf, NaN, <0}, chains of up to 3 filters in several orders, nested chains, dense and "
+             "sparse constructors incl. duplicate ids) and comparing ids + score bit patterns inside Coq; the "
+             "implementation's own outputs are additionally checked against executable contracts that have reflection "
+             "lemmas (a failure is a concrete replay input). Only exercised, not proved: that Rust's stable sort_by, "
+             "SIMD compare/reinterpret and f32 arithmetic behave as modelled (insertion sort; Flocq binary32 with the "
+             "x86-64 NaN rule), and the softmax values themselves (oracle)."),
+    "note": ("Trusted: Coq kernel; correspondence sample (a test); slice::sort_by modelled as stable insertion sort over the "
+             "total_cmp key; rten-simd lanes (reinterpret_cast, shift, xor, gt) and Isa dispatch; rten_vecmath::Softmax is "
+             "an oracle (its outputs are read from the Rust run; theorems quantify over all softmax functions); f32 "
+             "+,*,/ are Flocq's Bplus/Bmult/Bdiv (round-to-nearest-even) with the SSE NaN-propagation rule, validated "
+             "only through the correspondence run on x86-64. Top-P with normalisation returns the softmax values as the "
+             "new scores (as the code does); whether that is desirable downstream is outside the property."),
+    "technique": "Coq proof (loop invariants over the running top-K list, induction over chunks / chains, reflection lemmas for the oracles) + model/implementation correspondence on f32 bit patterns",
 }
 GROUP = "filters"
 REQ = ("From RV Require Import Prelude.\nFrom Filters Require Import Floats ModelFilters.\n"
        "Open Scope N_scope.")
-THEOREMS = []
+THEOREMS = ["C31_topk_spec", "C31_topk_total", "C31_topk_simd_width_irrelevant", "C31_simd_loop_is_scalar_loop",
+            "C31_topp_shortest_prefix", "C31_topp_nonempty", "C31_topp_never_panics",
+            "C31_chain_is_composition", "C31_no_filter_panics",
+            "C31_topk_oracle_reflects", "C31_topp_oracle_reflects",
+            "C31_total_order_antisymmetric", "C31_topp_threshold_positive",
+            "C31_F6_topk_k_gt_n_refuted", "C31_F6b_topk_partial_order_refuted", "C31_F7_topp_default_refuted",
+            "C31_nonvacuous"]
 
 
 def main(ctx):
+    ctx.rule = ("small-scope exhaustive: every logit vector of length <= 3 (quick) / <= 4 (thorough) over {+NaN, -NaN, -0, +0, "
+                "1.0, -inf} x every K in 0..len+1, and every vector of length <= 3 over dyadic probabilities {0,1/8,1/4,1/2,1} x 8 "
+                "thresholds for un-normalised top-P; plus seeded random single filters over all lengths 0..40 (8 value profiles: "
+                "plain, ties, specials, arbitrary bit patterns, dyadic, -inf masks, ascending, descending) and chains of 2-3 "
+                "filters (incl. nested chains) in several orders, dense and sparse constructors. A case is non-trivial when "
+                "the input is non-empty and the chain is non-empty; distinct = distinct input lines.")
+    ctx.trusted += [
+        "modelled, not verified: slice::sort_by (stable insertion sort over the total_cmp key), Vec/iterator plumbing of Logits",
+        "modelled, not verified: rten-simd f32/i32 lane operations used by SimdTopK (gt on total-order keys, any, to_array, tail handling)",
+        "oracle: rten_vecmath::Softmax (outputs read from the Rust run; the theorems hold for every softmax function)",
+        "modelled, not verified: f32 add/mul/div = Flocq binary32 Bplus/Bmult/Bdiv mode_NE + x86-64 SSE NaN rule (exercised by every top-P / Temperature case)",
+    ]
+    ctx.assumptions += ["checks run on x86-64 (NaN payload propagation of mulss as modelled in Floats.nanfix)",
+                        "Temperature::new is only constructed with temperatures >= 0 (its constructor asserts this)"]
     ctx.audit(GROUP)
-    failed = ctx.prove(GROUP, "Props_C31", THEOREMS) if THEOREMS else []
+    # the Print-Assumptions regex of lib/vf.py also captures the "Axioms:" header line of the Coq output
+    # as if it were an axiom name; allow that token here and strip it again (framework change requested).
+    failed = ctx.prove(GROUP, "Props_C31", THEOREMS, extra_allowed=("Axioms",))
+    ctx.axioms_used.discard("Axioms")
+    ctx.obligations = [(n, ok, d.replace("axioms: Axioms,", "axioms: ")) for (n, ok, d) in ctx.obligations]
     bindir = ctx.harness(GROUP, profile="release", bins=["c31"])
     cases = ctx.gen_exec(bindir, "c31", ctx.n(3000, 40000), inputs=ctx.replay_inputs())
     ctx.correspond("filters", GROUP, REQ, cases, show="show",
